@@ -322,6 +322,76 @@ def nonce_specs():
     return out
 
 
+def evaluate_late(spec):
+    """a long one-directional run of 1-RTT packets with 1-byte packet numbers, some of them captured so late that they lie outside the
+    window of their own encoding: A.3 then defines a (wrong) number for them, they cannot be opened, and - the reconstruction being a
+    function of the largest number of SUCCESSFULLY processed packets - every other packet is reconstructed as if they had not arrived.
+    Oracle: an A.3 model run over the capture order says which datagrams open; exactly their stream data is exported, in capture order"""
+    import oracle
+    import scenario
+    import quicref
+    b = scenario.build(spec)
+    conn = b.conns[0]
+    n0 = conn.app_start
+    app = list(range(n0, len(conn.datagrams)))
+    order = list(range(len(b.pkts)))
+    for src, dst in spec["late"]:           # app datagram index src is captured directly behind app datagram index dst (> src)
+        a, z = app[src % len(app)], app[dst % len(app)]
+        if a < z:
+            order.remove(a)
+            order.insert(order.index(z) + 1, a)
+    times = sorted(p.ts for p in b.pkts)
+    log = [e for e in conn.pkt_log]
+    # app-phase datagrams carry exactly one packet each here: the k-th app datagram is the k-th "app" entry of the packet log
+    app_log = [e for e in log if e["kind"] == "app"][-len(app):]      # (1-RTT packets of the handshake phase come first in the log)
+    pkts = []
+    largest = {False: None, True: None}
+    want = []
+    for t, j in zip(times, order):
+        pk = b.pkts[j]
+        pk.ts = t
+        pkts.append(pk)
+        if j >= n0:
+            e = app_log[j - n0]
+            srv = e["srv"]
+            lg = largest[srv]
+            got = quicref.rfc_decode_pn(lg if lg is not None else 0, e["pn"] & ((1 << (8 * e["pn_len"])) - 1), 8 * e["pn_len"]) if lg is not None else e["pn"]
+            if got == e["pn"]:
+                largest[srv] = max(lg if lg is not None else -1, e["pn"])
+                data = b"".join(conn.datagrams[j][2])
+                if data:
+                    want.append((srv, data))
+    o = oracle.run_e2e(b, engine.workdir(), pkts=pkts)
+    sig = oracle.base_failure(o)
+    detail = (o.run.exc or "")[-300:] if sig else ""
+    dropped = len([1 for j in app if b"".join(conn.datagrams[j][2])]) - len(want)
+    if sig is None:
+        got = [(srv, pl) for srv, pl, _ in oracle.quic_flow_list(o, spec["conns"][0]["ep"])]
+        if got != want:
+            sig = "late arrival outside the window: exported datagrams differ from those the A.3 model opens"
+            firstbad = next((i for i, (g, w) in enumerate(zip(got, want)) if g != w), min(len(got), len(want)))
+            detail = f"{got[firstbad:firstbad + 1]!r:.80} vs {want[firstbad:firstbad + 1]!r:.80}; {len(got)} exported, {len(want)} expected ({dropped} legitimately unopenable); first difference at exported datagram {firstbad}"
+    return {"sig": sig, "detail": detail, "nontrivial": dropped >= 1 and len(want) >= 100, "labels": ["late-outside-window", "dropped:%d" % min(dropped, 4)],
+            "key": "late%s" % spec["late"]}
+
+
+def late_specs():
+    import scenario
+    out = []
+    i = 0
+    for suite in (0x1301, 0x1303):
+        for d, lates in ((1, [[100, 230], [228, 300]]), (0, [[5, 140]]), (1, [[10, 137], [11, 139], [200, 205]]), (0, [[1, 129], [150, 290]])):
+            steps = []
+            for k in range(330):
+                steps.append({"op": "data", "d": d, "pk": [{"fr": [["stream", 0, 3 + k % 5, None, False, True, None]], "gap": 0, "pnl": 1}]})
+                if k % 40 == 0:
+                    steps.append({"op": "data", "d": 1 - d, "pk": [{"fr": [["stream", 4, 9, None, False, True, None]], "gap": 0, "pnl": 0}]})
+            out.append({"conns": [{"kind": "quic", "seed": 1900 + i, "suite": suite, "steps": steps, "ep": scenario.default_ep(i)}], "tseed": 1 + i,
+                        "late": [[a + a // 40 + 1, z + z // 40 + 1] for a, z in lates]})
+            i += 1
+    return out
+
+
 def stack_specs():
     import scenario
     out = []
@@ -342,6 +412,7 @@ def stages(tier):
     quick = tier == "quick"
     return [
         Stage("through-the-stack", evaluate_stack, specs=stack_specs()),
+        Stage("late-arrivals-outside-the-window", evaluate_late, specs=late_specs(), chunksize=1),
         Stage("number-in-the-nonce", evaluate_nonce, specs=nonce_specs(), chunksize=64),
         Stage("boundaries", evaluate, specs=boundary_specs(full=not quick), chunksize=4096),
         Stage("random", evaluate, strategy=lambda t: random_case(), examples=60000 if quick else 2000000, shrink=True),
@@ -349,7 +420,9 @@ def stages(tier):
     ]
 
 
-RULE = ("stage through-the-stack: real protected packets (2 suites x Retry x skipped packet numbers in every space x encoded lengths) through "
+RULE = ("stage late-arrivals-outside-the-window: 330 one-byte-numbered 1-RTT packets of one direction through tlexport.main, two or three of them captured "
+        "more than half a window late (they cannot be opened; A.3 defines their wrong number) - exactly the datagrams an A.3 model over the capture order "
+        "opens are exported, i.e. a packet that could not be opened leaves the largest-number state alone; stage through-the-stack: real protected packets (2 suites x Retry x skipped packet numbers in every space x encoded lengths) through "
         "tlexport.main, the packet number given to the AEAD compared with the sender's for every packet; stage number-in-the-nonce: "
         "for largest around 2^0..2^61 and all lengths a packet sealed by the reference with nonce = IV xor the A.3 number must be opened by the "
         "session's reconstruction + QuicDecryptor (4 AEADs); then direct calls of the packet-number "
